@@ -540,6 +540,13 @@ def report_violation(pid, P, tier, seed, t0, work, h, broken, new_issues, stats_
         if not issues:
             small = ops
             issues, tr, md = eval_case(h, stream, small, work, "final")
+        if not issues:
+            # the failure did not reproduce on re-execution (a schedule-dependent stream such as C09): the
+            # history recorded during the run is the evidence
+            issues = sorted(its)
+            tr = ["%s\t%s" % (x[2], x[3]) for x in issues]
+            md = ["%s\t%s" % (x[4], x[5]) for x in issues]
+            rp["recorded_not_reexecuted"] = True
         rp.update({"stream": stream, "ops": small, "impl_trace": tr, "model_trace": md,
                    "first_divergence": ({"line": issues[0][0], "kind": issues[0][1], "op": issues[0][2], "impl": issues[0][3], "model": issues[0][4], "spec_verdict": issues[0][5]} if issues else None),
                    "kind": "property-fails-on-implementation" if want_spec else "correspondence-broken",
